@@ -12,6 +12,7 @@ mkdir -p "$S/repo" "$S/verif"
 (cd /repo && git archive "${BASE:-HEAD}") | tar -x -C "$S/repo"
 if ! (cd "$S/repo" && git init -q . 2>/dev/null && git apply "$PATCH"); then echo "PATCH DOES NOT APPLY"; exit 2; fi
 cp "${KF:-$VERIF/known_findings.json}" "$S/verif/known_findings.json"
+ln -s "$VERIF/checker" "$S/verif/checker" # the positive-control module is read from the verif dir
 PROPS="$*"
 [ -z "$PROPS" ] && PROPS="$(python3 -c "import json;print(' '.join(c['property_id'] for c in json.load(open('$VERIF/MANIFEST.json'))['checks']))")"
 [ -n "${CVBIN:-}" ] || (cd "$VERIF/checker" && GOFLAGS=-mod=mod GOPROXY=off GOSUMDB=off GOTOOLCHAIN=local go build -o ../bin/cvcheck ./cmd/cvcheck) || exit 2
